@@ -33,16 +33,18 @@ exactness of the automorphism list; `fold` computes the generated congruence and
 `None` exactly when no degree-respecting congruence contains the pair; `is_minimal` is true
 exactly when no proper degree-respecting congruence exists; the partition from which
 `minimal_image` builds its quotient is the coarsest degree-respecting congruence.
-NOT proved (Spec clauses evaluated on every explored case, see `*_statement` below): that the
-numbering / `build_set` / `build_sym_using_ms` step of `minimal_image` yields the quotient
-symbol of that partition (projection is a morphism, result has no proper quotient), and cover
-invariance.
+Sections 7–8 tie `Connected` to the library's `is_connected()` and prove the property's
+statements about `minimal_image` itself for every valid connected symbol (`ValidSym`, C02/C03):
+`minimal_image_spec` (returns a valid symbol, the class-numbering map is a surjective morphism
+whose kernel is the coarsest congruence, the result has no proper quotient and is minimal),
+`minimal_image_unique` (any other minimal quotient is isomorphic to it) and `cover_invariance`
+(a symbol and its covers have isomorphic minimal images, hence equal canonical forms).
 -/
-import DSymVerif.Proofs.MorphismCoarsest
-import DSymVerif.Proofs.MorphismBridge
+import DSymVerif.Proofs.MorphismQuot5
+import DSymVerif.Props.C03
 
 namespace DSymVerif.C04
-open DSymVerif DSymVerif.Mor DSymVerif.DS
+open DSymVerif DSymVerif.Mor DSymVerif.DS DSymVerif.DS.CanonP
 
 /-! ## 0. the hypotheses are those of the model's D-symbols; example instances -/
 
@@ -52,7 +54,7 @@ theorem view_hypotheses (ds : DSymData) (hr : TableRange ds.dset) (hi : TableInv
     OpRange (ofSym ds) ∧ OpPos (ofSym ds) ∧ Complete (ofSym ds) (ofSym ds).dim ∧ Invol (ofSym ds) :=
   ofSym_valid ds hr hi
 
-example : OpRange ex2 ∧ OpPos ex2 ∧ Complete ex2 ex2.dim ∧ Invol ex2 ∧ Connected ex2 :=
+example : OpRange Mor.ex2 ∧ OpPos Mor.ex2 ∧ Complete Mor.ex2 Mor.ex2.dim ∧ Invol Mor.ex2 ∧ Connected Mor.ex2 :=
   ⟨ex2_opRange, ex2_opPos, ex2_complete, ex2_invol, ex2_connected⟩
 
 /-! ## 1. morphism search (repaired function): sound, complete, unique, terminating -/
@@ -68,8 +70,8 @@ theorem morphism_sound (a b : MV) (hb : OpPos b) (e : Nat) (he : e ≠ 0) (f : A
       ∀ i, i ≤ a.dim → ∀ di ei, a.op i d = some di → b.op i (gv f d) = some ei → gv f di = ei :=
   morphism_sound' a b hb e he f h
 
-example : morphism ex2 ex2 2 = .ok #[0, 2, 1] := by decide
-example := morphism_sound ex2 ex2 ex2_opPos 2 (by decide) _ (by decide : morphism ex2 ex2 2 = .ok #[0, 2, 1])
+example : morphism Mor.ex2 Mor.ex2 2 = .ok #[0, 2, 1] := by decide
+example := morphism_sound Mor.ex2 Mor.ex2 ex2_opPos 2 (by decide) _ (by decide : morphism Mor.ex2 Mor.ex2 2 = .ok #[0, 2, 1])
 
 /-- soundness, total form: from a connected source into a complete target the returned vector
     is a morphism (total on 1..|a|, into 1..|b|) with the requested base image -/
@@ -79,15 +81,15 @@ theorem morphism_sound_total (a b : MV) (hb : OpPos b) (hc : Complete b a.dim)
     f.size = a.size + 1 ∧ gv f 1 = e ∧ InRange a b (gv f) ∧ IsMor a b (gv f) :=
   morphism_isMor a b hb hc hconn e he1 he2 f h
 
-example := morphism_sound_total ex2 ex2 ex2_opPos ex2_complete ex2_connected 2 (by decide) (by decide) _
-  (by decide : morphism ex2 ex2 2 = .ok #[0, 2, 1])
+example := morphism_sound_total Mor.ex2 Mor.ex2 ex2_opPos ex2_complete ex2_connected 2 (by decide) (by decide) _
+  (by decide : morphism Mor.ex2 Mor.ex2 2 = .ok #[0, 2, 1])
 
 /-- the search never panics (no index out of range, the loop terminates within the fuel) -/
 theorem morphism_terminates (a b : MV) (ha : OpRange a) (hb : OpPos b) (h1 : 1 ≤ a.size)
     (e : Nat) (he : e ≠ 0) : morphism a b e ≠ .panic :=
   morphism_no_panic a b ha hb h1 e he
 
-example := morphism_terminates ex2 ex2 ex2_opRange ex2_opPos (by decide) 1 (by decide)
+example := morphism_terminates Mor.ex2 Mor.ex2 ex2_opRange ex2_opPos (by decide) 1 (by decide)
 
 /-- ○ completeness (forced extension): if a morphism `g` exists, the search with base image
     `g 1` returns it -/
@@ -97,7 +99,7 @@ theorem morphism_complete (a b : MV) (ha : OpRange a) (hb : OpPos b) (hc : Compl
     ∃ f, morphism a b (g 1) = .ok f ∧ ∀ d, 1 ≤ d → d ≤ a.size → gv f d = g d :=
   morphism_finds a b ha hb hc hconn h1 g hg hr
 
-example := morphism_complete ex2 ex2 ex2_opRange ex2_opPos ex2_complete ex2_connected (by decide)
+example := morphism_complete Mor.ex2 Mor.ex2 ex2_opRange ex2_opPos ex2_complete ex2_connected (by decide)
   (fun d => d) ex2_idMor (fun _ h1 h2 => ⟨h1, h2⟩)
 
 /-- … even without connectivity or completeness the answer is never `None` and agrees with `g`
@@ -107,7 +109,7 @@ theorem morphism_complete_partial (a b : MV) (ha : OpRange a) (hb : OpPos b) (h1
     ∃ f, morphism a b (g 1) = .ok f ∧ ∀ d, gv f d ≠ 0 → gv f d = g d :=
   morphism_complete' a b ha hb h1 g hg hg0
 
-example := morphism_complete_partial ex2 ex2 ex2_opRange ex2_opPos (by decide) (fun d => d) ex2_idMor
+example := morphism_complete_partial Mor.ex2 Mor.ex2 ex2_opRange ex2_opPos (by decide) (fun d => d) ex2_idMor
   (by decide)
 
 /-- `Some` exactly when a morphism with the requested base image exists … -/
@@ -122,13 +124,13 @@ theorem morphism_none_iff (a b : MV) (ha : OpRange a) (hb : OpPos b) (hc : Compl
     morphism a b e = .err ↔ ¬ ∃ g, IsMor a b g ∧ InRange a b g ∧ g 1 = e :=
   morphism_err_iff a b ha hb hc hconn h1 e he1 he2
 
-example : (∃ f, morphism ex2 ex2 1 = .ok f) :=
-  (morphism_some_iff ex2 ex2 ex2_opRange ex2_opPos ex2_complete ex2_connected (by decide) 1
+example : (∃ f, morphism Mor.ex2 Mor.ex2 1 = .ok f) :=
+  (morphism_some_iff Mor.ex2 Mor.ex2 ex2_opRange ex2_opPos ex2_complete ex2_connected (by decide) 1
     (by decide) (by decide)).2
     ⟨fun d => d, ⟨fun _ _ _ => by simp [degreesMatch2], fun d _ _ i _ di ei h1 h2 => by rw [h1] at h2; cases h2; rfl⟩,
       fun d h1 h2 => ⟨h1, h2⟩, rfl⟩
 
-example := morphism_none_iff ex2 ex2 ex2_opRange ex2_opPos ex2_complete ex2_connected (by decide) 2
+example := morphism_none_iff Mor.ex2 Mor.ex2 ex2_opRange ex2_opPos ex2_complete ex2_connected (by decide) 2
   (by decide) (by decide)
 
 /-- a morphism of a connected source is determined by its base image -/
@@ -138,7 +140,7 @@ theorem morphism_unique (a b : MV) (ha : OpRange a) (hb : OpPos b) (hc : Complet
     ∀ d, 1 ≤ d → d ≤ a.size → g d = g' d :=
   Mor.morphism_unique a b ha hb hc hconn h1 g g' hg hg' hr hr' h
 
-example := morphism_unique ex2 ex2 ex2_opRange ex2_opPos ex2_complete ex2_connected (by decide)
+example := morphism_unique Mor.ex2 Mor.ex2 ex2_opRange ex2_opPos ex2_complete ex2_connected (by decide)
   (fun d => d) (fun d => d) ex2_idMor ex2_idMor (fun _ h1 h2 => ⟨h1, h2⟩) (fun _ h1 h2 => ⟨h1, h2⟩) rfl
 
 /-! ## 2. defect D3 (pinned function) as checked examples -/
@@ -178,8 +180,8 @@ theorem automorphisms_eq (a : MV) (ha : OpRange a) (hc : Complete a a.dim) (hinv
   exact ⟨hs, hr, hm, endo_injective a ha hc hinv hconn h1 (gv f) hm hr,
     endo_surjective a ha hc hinv hconn h1 (gv f) hm hr⟩
 
-example : automorphisms ex2 = .ok [#[0, 1, 2], #[0, 2, 1]] := by decide
-example := automorphisms_eq ex2 ex2_opRange ex2_complete ex2_invol ex2_connected (by decide)
+example : automorphisms Mor.ex2 = .ok [#[0, 1, 2], #[0, 2, 1]] := by decide
+example := automorphisms_eq Mor.ex2 ex2_opRange ex2_complete ex2_invol ex2_connected (by decide)
 
 /-! ## 4. fold -/
 
@@ -192,12 +194,12 @@ theorem fold_congruence (s : MV) (hr : OpRange s) (hc : Complete s s.dim) (p0 q 
     (OpClosed s p0.find → OpClosed s q.find) ∧ (DegResp s p0.find → DegResp s q.find) :=
   fold_congruence' s hr hc p0 q d e hd1 hd2 he1 he2 h
 
-example : (fold ex2 Part.new 1 2).isOk = true := by decide
-example : ∃ q, fold ex2 Part.new 1 2 = .ok q ∧ q 1 = q 2 := by
-  have hok : (fold ex2 Part.new 1 2).isOk = true := by decide
-  cases h : fold ex2 Part.new 1 2 with
+example : (fold Mor.ex2 Part.new 1 2).isOk = true := by decide
+example : ∃ q, fold Mor.ex2 Part.new 1 2 = .ok q ∧ q 1 = q 2 := by
+  have hok : (fold Mor.ex2 Part.new 1 2).isOk = true := by decide
+  cases h : fold Mor.ex2 Part.new 1 2 with
   | ok q =>
-    exact ⟨q, rfl, (fold_congruence ex2 ex2_opRange ex2_complete Part.new q 1 2 (by decide) (by decide)
+    exact ⟨q, rfl, (fold_congruence Mor.ex2 ex2_opRange ex2_complete Part.new q 1 2 (by decide) (by decide)
       (by decide) (by decide) h).2.1⟩
   | err => rw [h] at hok; cases hok
   | panic => rw [h] at hok; cases hok
@@ -211,10 +213,10 @@ theorem fold_least (s : MV) (hr : OpRange s) (p0 q : Part) (c : Nat → Nat) (d 
   Mor.fold_least s hr p0 q c d e hd1 hd2 he1 he2 hcc hc0 hcde h
 
 example : True := by
-  have hok : (fold ex2 Part.new 1 2).isOk = true := by decide
-  cases h : fold ex2 Part.new 1 2 with
+  have hok : (fold Mor.ex2 Part.new 1 2).isOk = true := by decide
+  cases h : fold Mor.ex2 Part.new 1 2 with
   | ok q =>
-    have := fold_least ex2 ex2_opRange Part.new q (fun _ => 0) 1 2 (by decide) (by decide)
+    have := fold_least Mor.ex2 ex2_opRange Part.new q (fun _ => 0) 1 2 (by decide) (by decide)
       (by decide) (by decide) (fun _ _ _ _ _ _ _ _ _ _ _ _ _ => rfl) (fun _ _ _ => rfl) rfl h
     trivial
   | err => rw [h] at hok; cases hok
@@ -239,7 +241,7 @@ theorem fold_some_iff (s : MV) (hr : OpRange s) (hc : Complete s s.dim) (p0 : Pa
     | err => exact (ne hres).elim
     | panic => exact (np hres).elim
 
-example := fold_some_iff ex2 ex2_opRange ex2_complete Part.new (opClosed_new ex2) (degResp_new ex2) 1 2
+example := fold_some_iff Mor.ex2 ex2_opRange ex2_complete Part.new (opClosed_new Mor.ex2) (degResp_new Mor.ex2) 1 2
   (by decide) (by decide) (by decide) (by decide)
 
 /-! ## 5. the minimality test -/
@@ -252,8 +254,8 @@ theorem is_minimal_iff (s : MV) (hr : OpRange s) (hc : Complete s s.dim) (h1 : 1
   obtain ⟨b, hb⟩ := isMinimal_total s hr h1
   exact ⟨b, hb, isMinimal_spec s hr hc h1 b hb⟩
 
-example := is_minimal_iff ex2 ex2_opRange ex2_complete (by decide)
-example : isMinimal ex2 = .ok false := by decide
+example := is_minimal_iff Mor.ex2 ex2_opRange ex2_complete (by decide)
+example : isMinimal Mor.ex2 = .ok false := by decide
 example : isMinimal d3 = .ok true := by decide
 
 /-- … and, for a connected symbol with involutive operations, exactly when EVERY degree-respecting
@@ -282,7 +284,7 @@ theorem is_minimal_iff_no_proper_quotient (s : MV) (hr : OpRange s) (hc : Comple
       omega)
     rw [hb, this]
 
-example := is_minimal_iff_no_proper_quotient ex2 ex2_opRange ex2_complete ex2_invol ex2_connected (by decide)
+example := is_minimal_iff_no_proper_quotient Mor.ex2 ex2_opRange ex2_complete ex2_invol ex2_connected (by decide)
 
 /-! ## 6. the partition behind `minimal_image` -/
 
@@ -302,27 +304,137 @@ theorem minimal_partition_coarsest (s : MV) (hr : OpRange s) (hc : Complete s s.
   exact ⟨q, hq, hcg.closed, hcg.deg, fun c hcc hcd x y hx1 hx2 hy1 hy2 hxy =>
     hmax c ⟨hcc, hcd⟩ x y ⟨hx1, hx2⟩ ⟨hy1, hy2⟩ hxy⟩
 
-example := minimal_partition_coarsest ex2 ex2_opRange ex2_complete ex2_invol ex2_connected (by decide)
+example := minimal_partition_coarsest Mor.ex2 ex2_opRange ex2_complete ex2_invol ex2_connected (by decide)
 
-/-! ## 7. not proved — evaluated as Spec clauses on every explored case (◐) -/
+/-! ## 7. `Connected` is `is_connected()` -/
 
-/-- `minimal_image` is a quotient of its argument that has no proper quotient -/
-def minimal_image_statement : Prop :=
-  ∀ ds r : DSymData, TableRange ds.dset → TableInvol ds.dset → Connected (ofSym ds) →
-    minimalImage ds = .ok r →
-    (∃ g, IsMor (ofSym ds) (ofSym r) g ∧ InRange (ofSym ds) (ofSym r) g ∧
-      ∀ d, 1 ≤ d → d ≤ r.size → ∃ x, 1 ≤ x ∧ x ≤ ds.size ∧ g x = d) ∧
-    (∀ c : Nat → Nat, OpClosed (ofSym r) c → DegResp (ofSym r) c →
-      ∀ x y, 1 ≤ x → x ≤ r.size → 1 ≤ y → y ≤ r.size → c x = c y → x = y)
+/-- the connectivity hypothesis of all the theorems above is what the library's `is_connected()`
+    computes (C02 `traversal_complete` / C03 `conn_iff_isConnected`) -/
+theorem connected_iff_isConnected (ds : DSymData) (h : ValidSet ds.dset) :
+    Connected (ofSym ds) ↔ ds.view.isConnected = true :=
+  Mor.connected_iff_isConnected ds h
 
-/-- a morphism between connected symbols induces an isomorphism of their minimal images -/
-def cover_invariance_statement : Prop :=
-  ∀ ds cs r r' : DSymData, TableRange ds.dset → TableInvol ds.dset → TableRange cs.dset →
-    TableInvol cs.dset → Connected (ofSym cs) →
-    (∃ g, IsMor (ofSym cs) (ofSym ds) g ∧ InRange (ofSym cs) (ofSym ds) g) →
-    minimalImage ds = .ok r → minimalImage cs = .ok r' →
-    r.size = r'.size ∧
-    ∃ g, IsMor (ofSym r) (ofSym r') g ∧ InRange (ofSym r) (ofSym r') g ∧
-      ∀ x y, 1 ≤ x → x ≤ r.size → 1 ≤ y → y ≤ r.size → g x = g y → x = y
+/-- … and the structural hypotheses hold for every valid symbol -/
+theorem valid_hypotheses (ds : DSymData) (h : ValidSym ds) :
+    OpRange (ofSym ds) ∧ OpPos (ofSym ds) ∧ Complete (ofSym ds) (ofSym ds).dim ∧ Invol (ofSym ds) :=
+  ofSym_validSet ds h.set
+
+example : ValidSym C03.ex1 ∧ C03.ex1.view.isConnected = true :=
+  ⟨C03.ex1_valid, (C03.conn_iff_isConnected C03.ex1_valid.set).1 C03.ex1_conn⟩
+
+/-! ## 8. the property for `minimal_image` -/
+
+/-- **minimal_image_spec — "The minimal image of a connected D-symbol is a symbol onto which the
+    input maps by a chamber map that commutes with all operations and preserves all degrees; it
+    admits no proper quotient of that kind, its size equals the number of classes of the coarsest
+    degree-respecting congruence, and the minimality test is true exactly when …"**
+
+    For every valid connected symbol `ds` (any size, any dimension ≥ 1) the model of
+    `minimal_image` returns (no panic) a valid connected symbol `c` and there is a chamber map `π`
+    with
+    * `π` is a morphism `ds → c` (commutes with every operation, preserves every degree), maps
+      1..|ds| ONTO 1..|c|, and `π 1 = 1`;
+    * the kernel of `π` is the coarsest degree-respecting congruence `Q` of `ds`: `Q` is a
+      degree-respecting congruence, contains every other one, and `π d = π d' ⇔ Q d = Q d'` — so
+      the chambers of `c` are in bijection with the classes of `Q` (|c| = number of classes);
+    * `c` has no proper quotient (every degree-respecting congruence of `c` is trivial), and
+      `is_minimal()` is true on `c`. -/
+theorem minimal_image_spec (ds : DSymData) (hs : ValidSym ds) (hsz : 1 ≤ ds.size) (hdim : 1 ≤ ds.dim)
+    (hconn : ds.view.isConnected = true) :
+    ∃ c π Q, minimalImage ds = .ok c ∧ ValidSym c ∧ 1 ≤ c.size ∧ c.dim = ds.dim ∧
+      c.view.isConnected = true ∧
+      IsMor (ofSym ds) (ofSym c) π ∧ InRange (ofSym ds) (ofSym c) π ∧
+      (∀ k, 1 ≤ k → k ≤ c.size → ∃ d, 1 ≤ d ∧ d ≤ ds.size ∧ π d = k) ∧ π 1 = 1 ∧
+      OpClosed (ofSym ds) Q ∧ DegResp (ofSym ds) Q ∧
+      (∀ P : Nat → Nat, OpClosed (ofSym ds) P → DegResp (ofSym ds) P →
+        ∀ x y, 1 ≤ x → x ≤ ds.size → 1 ≤ y → y ≤ ds.size → P x = P y → Q x = Q y) ∧
+      (∀ d d', 1 ≤ d → d ≤ ds.size → 1 ≤ d' → d' ≤ ds.size → (π d = π d' ↔ Q d = Q d')) ∧
+      NoProperQuotient c ∧ isMinimal (ofSym c) = .ok true := by
+  have hc0 := (Mor.connected_iff_isConnected ds hs.set).2 hconn
+  obtain ⟨c, π, Q, hc, hcv, hcs, hcd, hπ, hπs, hπ1, hQ, hker, hcc, hmin, hism⟩ :=
+    minimalImage_full ds hs hsz hdim hc0
+  obtain ⟨hm, hr⟩ := hπ.isMor hs.toValidTables hcv.toValidTables
+  exact ⟨c, π, Q, hc, hcv, hcs, hcd, (Mor.connected_iff_isConnected c hcv.set).1 hcc, hm, hr, hπs, hπ1,
+    hQ.cong.closed, hQ.cong.deg,
+    fun P hP1 hP2 x y hx1 hx2 hy1 hy2 hxy => hQ.max P ⟨hP1, hP2⟩ x y ⟨hx1, hx2⟩ ⟨hy1, hy2⟩ hxy,
+    hker, hmin, hism⟩
+
+example := minimal_image_spec C03.ex1 C03.ex1_valid (by decide) (by decide)
+  ((C03.conn_iff_isConnected C03.ex1_valid.set).1 C03.ex1_conn)
+
+/-- **uniqueness of the smallest quotient**: every symbol `c'` without proper quotient onto which
+    `ds` maps by a surjective morphism is isomorphic (C03 `IsIso`) to `minimal_image(ds)` -/
+theorem minimal_image_unique (ds c' : DSymData) (σ : Nat → Nat) (hs : ValidSym ds) (hsz : 1 ≤ ds.size)
+    (hdim : 1 ≤ ds.dim) (hconn : ds.view.isConnected = true) (hc' : ValidTables c')
+    (hd : c'.dim = ds.dim) (hσ : IsMor (ofSym ds) (ofSym c') σ) (hσr : InRange (ofSym ds) (ofSym c') σ)
+    (hσs : ∀ k, 1 ≤ k → k ≤ c'.size → ∃ d, 1 ≤ d ∧ d ≤ ds.size ∧ σ d = k)
+    (hmin : NoProperQuotient c') :
+    ∃ c g, minimalImage ds = .ok c ∧ IsIso g c' c := by
+  have hc0 := (Mor.connected_iff_isConnected ds hs.set).2 hconn
+  obtain ⟨c, π, Q, hc, hcv, _, _, hπ, hπs, _, hQ, hker, _⟩ := minimalImage_full ds hs hsz hdim hc0
+  obtain ⟨g, hg⟩ := minimal_quotient_unique hs.toValidTables hcv.toValidTables hc' hπ hπs hQ hker
+    (SymMor.of_isMor hs.toValidTables hc' hd hσ hσr) hσs hmin
+  exact ⟨c, g, hc, hg⟩
+
+example : NoProperQuotient C03.ex1 := fun _ _ _ k k' hk1 hk2 hk1' hk2' _ => by
+  have h1 : k ≤ 1 := hk2
+  have h2 : k' ≤ 1 := hk2'
+  omega
+
+/-- **cover_invariance — "A symbol and each of its covers have isomorphic minimal images."**
+    If the valid connected symbol `a` maps onto the valid connected symbol `b` by a morphism (a
+    cover is such a symbol, see `cover_invariance_cover`), then `minimal_image(a)` and
+    `minimal_image(b)` are isomorphic — and therefore have the same canonical form (C03). -/
+theorem cover_invariance (a b : DSymData) (φ : Nat → Nat) (ha : ValidSym a) (hb : ValidSym b)
+    (hsa : 1 ≤ a.size) (hda : 1 ≤ a.dim) (hsb : 1 ≤ b.size) (hd : b.dim = a.dim)
+    (hca : a.view.isConnected = true) (hcb : b.view.isConnected = true)
+    (hφ : IsMor (ofSym a) (ofSym b) φ) (hφr : InRange (ofSym a) (ofSym b) φ)
+    (hφs : ∀ k, 1 ≤ k → k ≤ b.size → ∃ d, 1 ≤ d ∧ d ≤ a.size ∧ φ d = k) :
+    ∃ qa qb g, minimalImage a = .ok qa ∧ minimalImage b = .ok qb ∧ IsIso g qb qa ∧
+      canonical qb = canonical qa := by
+  have hca' := (Mor.connected_iff_isConnected a ha.set).2 hca
+  have hcb' := (Mor.connected_iff_isConnected b hb.set).2 hcb
+  have hdb : 1 ≤ b.dim := by rw [hd]; exact hda
+  have hφm := SymMor.of_isMor ha.toValidTables hb.toValidTables hd hφ hφr
+  obtain ⟨qa, qb, g, hqa, hqb, hg⟩ :=
+    minimalImage_of_morphism ha hb hsa hda hsb hca' hcb' hφm hφs
+  obtain ⟨qa', _, _, hqa', hqav, hqas, hqad, _, _, _, _, _, hqac, _⟩ := minimalImage_full a ha hsa hda hca'
+  obtain ⟨qb', _, _, hqb', hqbv, hqbs, hqbd, _, _, _, _, _, hqbc, _⟩ := minimalImage_full b hb hsb hdb hcb'
+  rw [hqa] at hqa'; cases hqa'
+  rw [hqb] at hqb'; cases hqb'
+  refine ⟨qa, qb, g, hqa, hqb, hg, ?_⟩
+  exact (C03.canonical_complete hqbv hqav hqbs (by rw [hqbd]; exact hdb) hqas (by rw [hqad]; exact hda)
+    ((Mor.connected_iff_conn qb hqbv.set).1 hqbc) ((Mor.connected_iff_conn qa hqav.set).1 hqac)).2 ⟨g, hg⟩
+
+example := cover_invariance C03.ex1 C03.ex1 (fun d => d) C03.ex1_valid C03.ex1_valid (by decide) (by decide)
+  (by decide) rfl ((C03.conn_iff_isConnected C03.ex1_valid.set).1 C03.ex1_conn)
+  ((C03.conn_iff_isConnected C03.ex1_valid.set).1 C03.ex1_conn)
+  ((SymMor.id C03.ex1).isMor C03.ex1_valid.toValidTables C03.ex1_valid.toValidTables).1
+  ((SymMor.id C03.ex1).isMor C03.ex1_valid.toValidTables C03.ex1_valid.toValidTables).2
+  (fun k h1 h2 => ⟨k, h1, h2, rfl⟩)
+
+/-- the outputs of `derived::cover` are such symbols: when the degrees are preserved (C05
+    `cover_is_covering`: the orbit lengths of the cover divide the degrees of the base), the
+    projection is a surjective morphism, so the cover and the base have isomorphic minimal images -/
+theorem cover_invariance_cover (s cv : DSymData) (n : Nat) (σ : Nat → Nat → Nat → Nat)
+    (hs : ValidSym s) (hsz : 1 ≤ s.size) (hdim : 1 ≤ s.dim) (hn : 1 ≤ n)
+    (hσ : SheetCompat s.dset n σ) (hcv : cover s n σ = .ok cv)
+    (hdeg : ∀ i d, i < s.dim → 1 ≤ d → d ≤ n * s.size →
+      cv.mPartial i (i + 1) d = s.mPartial i (i + 1) (cproj s.size d))
+    (hfar : FarCommute cv.dset)
+    (hcs : s.view.isConnected = true) (hcc : cv.view.isConnected = true) :
+    ∃ qc qs g, minimalImage cv = .ok qc ∧ minimalImage s = .ok qs ∧ IsIso g qs qc ∧
+      canonical qs = canonical qc := by
+  obtain ⟨hct, hsize, hm, hsurj⟩ :=
+    cover_symMor s hs.toValidTables hsz hdim n hn σ hσ cv hcv hdeg
+  have hcvv : ValidSym cv := ⟨hct, hfar⟩
+  obtain ⟨hmm, hmr⟩ := hm.isMor hct hs.toValidTables
+  have hcsz : 1 ≤ cv.size := by
+    rw [hsize]
+    calc 1 ≤ s.size := hsz
+      _ = 1 * s.size := (Nat.one_mul _).symm
+      _ ≤ n * s.size := Nat.mul_le_mul_right _ hn
+  exact cover_invariance cv s (cproj s.size) hcvv hs hcsz (by rw [← hm.dim]; exact hdim) hsz hm.dim
+    hcc hcs hmm hmr hsurj
 
 end DSymVerif.C04
